@@ -165,6 +165,7 @@ Chk(e, F, hp) ==
                       ELSE IF b = 0 THEN "divzero"
                       ELSE IF a % b # 0 THEN "inexact" ELSE "ok"
               ELSE "ok"
+    [] e.k = "illtyped" -> "illtyped"   \* literal whose value contradicts its type (export.py)
     [] OTHER -> "ok"
 
 \* locations <<alloc, flat offset>> read by evaluating e
@@ -203,7 +204,9 @@ ChkWin(e, F, hp) ==
                          ELSE LET lo == Eval(e.acc[j].lo, F, hp)
                                   hi == Eval(e.acc[j].hi, F, hp)
                               IN lo < 0 \/ hi > d.sh[j]   \* (an empty or negative extent accesses nothing)
-                    THEN "oob" ELSE "ok"
+                    \* a window reaching beyond its source accesses nothing by itself: the properties speak of
+                    \* accesses, so this ends the behaviour without a verdict ("winext" is inconclusive)
+                    THEN "winext" ELSE "ok"
 WinDesc(e, F, hp) ==
   LET d == F.bufs[e.n]
       los == [j \in 1..Len(e.acc) |->
@@ -240,7 +243,10 @@ EntryBufs(pr, side, en) ==
         LET j == CHOOSE j \in idxs : pr.args[j].n = n
             sh == [d \in 1..Len(pr.args[j].shape) |-> Eval(pr.args[j].shape[d], F0, << >>)]
         IN IF pr.args[j].win
-           THEN [al |-> j, off |-> side.bufs[j].off, st |-> side.bufs[j].strides, sh |-> sh, dw |-> FALSE]
+           THEN [al |-> j, off |-> side.bufs[j].off,
+                 \* (a dense input handed to a window argument - set_window edges - is row-major)
+                 st |-> IF side.bufs[j].strides = << >> THEN RowMajor(sh) ELSE side.bufs[j].strides,
+                 sh |-> sh, dw |-> FALSE]
            ELSE [al |-> j, off |-> 0, st |-> RowMajor(sh), sh |-> sh, dw |-> FALSE]]
 EntryHeap(pr, side) ==
   LET idxs == {j \in 1..Len(pr.args) : IsBuf(pr.args[j])}
@@ -623,7 +629,7 @@ Verdict == IF Unit.B # 0 THEN EqVerdict
 \* static well-scopedness of every procedure of the unit, reported once per unit
 \* (procedures 1..Unit.nA are the reference procedure and its callees, the rest belong to B)
 ScopeOK(lo, hi) == \A q \in lo..hi : WellScoped(Procs[q])
-Census == Done => PrintT(ToJson([u |-> uid, i |-> iid, v |-> Verdict,
+Census == Done => PrintT(ToJson([u |-> uid, i |-> iid, v |-> Verdict, n |-> TLCGet("level"),
                                  wsa |-> IF iid = 1 THEN ScopeOK(1, Unit.nA) ELSE TRUE,
                                  wsb |-> IF iid = 1 THEN ScopeOK(Unit.nA + 1, Len(Procs)) ELSE TRUE]))
 
